@@ -26,8 +26,9 @@ def main():
     ap = argparse.ArgumentParser()
     ap.add_argument("prop"); ap.add_argument("srcdir"); ap.add_argument("i"); ap.add_argument("demopkg")
     ap.add_argument("--name"); ap.add_argument("--skip-suite", action="store_true"); ap.add_argument("--props")
-    ap.add_argument("--tier", default="quick")
+    ap.add_argument("--tier", default="quick"); ap.add_argument("--tags", default="")
     a = ap.parse_args()
+    a.srcdir = os.path.abspath(a.srcdir)
     name = a.name or "%s-%s" % (a.prop, a.i)
     d = "/tmp/vs-" + name
     subprocess.call([os.path.join(ROOT, "tools", "rmmutant.sh"), d])
@@ -41,7 +42,7 @@ def main():
             dst = os.path.join(d, a.demopkg, "zz_seed_demo_test.go")
             shutil.copyfile(demo_test, dst)
             tests = re.findall(r"^func (Test\w+)\(", open(demo_test).read(), flags=re.M)
-            demo_cmd = ["go", "test", "-vet=off", "-count=1", "-run", "^(" + "|".join(tests) + ")$", "./" + a.demopkg]
+            demo_cmd = ["go", "test"] + (["-tags", a.tags] if a.tags else []) + ["-vet=off", "-count=1", "-run", "^(" + "|".join(tests) + ")$", "./" + a.demopkg]
             demo_files = [dst]
         else:
             os.makedirs(os.path.join(d, "zz_seed_demo"), exist_ok=True)
